@@ -216,22 +216,17 @@ func (db *Center) SuffrageProofByBlockHeight(height base.Height) (base.SuffrageP
 
 	lastheight := height
 
+	// NOTE temps is one consistent snapshot; a temp database merged into the
+	// permanent database meanwhile stays readable.
 	if temps := db.activeTemps(); len(temps) > 0 {
 		if height > temps[0].Height() {
 			return nil, false, nil
 		}
 
-		if temph := db.findTemp(height); temph != nil {
-			switch i, found, err := temph.SuffrageProof(); {
-			case err != nil:
-				return nil, false, e.Wrap(err)
-			case found:
-				return i, true, nil
-			}
-
+		if lowest := temps[len(temps)-1].Height(); height >= lowest {
 			for i := range temps {
 				temp := temps[i]
-				if temp.Height() > lastheight {
+				if temp.Height() > height {
 					continue
 				}
 
@@ -242,9 +237,9 @@ func (db *Center) SuffrageProofByBlockHeight(height base.Height) (base.SuffrageP
 					return j, true, nil
 				}
 			}
-		}
 
-		lastheight = temps[len(temps)-1].Height() - 1
+			lastheight = lowest - 1
+		}
 	}
 
 	proof, found, err := db.perm.SuffrageProofByBlockHeight(lastheight)
